@@ -343,3 +343,12 @@ Print Assumptions C02_plain_documents_conform.
 (* non-vacuity: a two-paragraph document with a soft break is in the fragment *)
 Example C02_plain_doc_demo : plain_doc [BPara 0 [AWord [97;98]; AWord [99]; ASoft; AWord [100]]; BPara 0 [AWord [101]]] = true.
 Proof. reflexivity. Qed.
+
+(* the same for block quotes, nested to any depth and in both marker spellings, around plain
+   paragraphs (proofs/SpecQuote*.v) *)
+Require Import GM.proofs.SpecQuoteConform.
+Theorem C02_quoted_documents_conform : forall c fin fuel d,
+  hardwraps c = false -> qdoc fuel d = true ->
+  ConvertModel c (md_of false fin d) = Ok (html_of d).
+Proof. exact quoted_doc_conforms. Qed.
+Print Assumptions C02_quoted_documents_conform.
